@@ -355,7 +355,7 @@ class Report:
             self.cov["samples"].append(s)
 
     def violation(self, what, replay_obj, no_input=False):
-        d = os.path.join(VERIF, "evidence", "replays")
+        d = os.path.join(os.environ.get("VERIF_EVIDENCE_DIR") or os.path.join(VERIF, "evidence"), "replays")
         os.makedirs(d, exist_ok=True)
         blob = json.dumps(replay_obj, indent=1, sort_keys=True, default=str)
         h = hashlib.sha1(blob.encode()).hexdigest()[:10]
@@ -380,8 +380,9 @@ class Report:
             "violations": len(self.violations),
         }
         ev["coverage"]["known_findings_reconfirmed"] = self.known
-        os.makedirs(os.path.join(VERIF, "evidence"), exist_ok=True)
-        with open(os.path.join(VERIF, "evidence", self.pid + ".json"), "w") as f:
+        evdir = os.environ.get("VERIF_EVIDENCE_DIR") or os.path.join(VERIF, "evidence")    # the mutant self-test writes elsewhere
+        os.makedirs(evdir, exist_ok=True)
+        with open(os.path.join(evdir, self.pid + ".json"), "w") as f:
             json.dump(ev, f, indent=1, default=str)
         seen = set()
         for (path, no_input, what) in self.violations:
